@@ -9,7 +9,17 @@ Open Scope Z_scope.
 (** what warn mode emits between the common trace and the warning for error [e]: nothing, or - for an
     out-of-range value - the offending event *)
 Definition offending (e : err) (pre : list action) : Prop :=
+  match e with
+  | EValue pa tn v VSType => pre = [Ev (mkEvent pa (TyN tn) (Some v))]
+  | _ => pre = []
+  end.
+
+Lemma offending_cases e pre : offending e pre ->
   pre = [] \/ exists pa tn v src, e = EValue pa tn v src /\ pre = [Ev (mkEvent pa (TyN tn) (Some v))].
+Proof.
+  destruct e as [pa tn v [| |]| | | | | |]; cbn [offending]; intros H; try (left; exact H).
+  right. eexists _, _, _, _. split; [reflexivity|exact H].
+Qed.
 
 Definition agree {A} (ms mw : M A) : Prop := forall s,
   match ms s with
@@ -50,7 +60,7 @@ Proof.
   apply agree_bind; [apply agree_refl|]. intros bs.
   destruct (valid p _); [apply agree_refl|].
   intros s. cbn. left. eexists [Ev (mkEvent pa (TyN (pname p)) (Some (from_bytes (psigned p) bs)))], [], s, _.
-  split; [reflexivity|]. right. eexists _, _, _, _. split; reflexivity.
+  split; reflexivity.
 Qed.
 
 Lemma agree_set_constraint i pa n : agree (set_constraint true i pa n) (set_constraint false i pa n).
@@ -60,7 +70,7 @@ Proof.
   apply agree_bind; [apply agree_refl|]. intros _.
   apply agree_bind; [apply agree_refl|]. intros s1.
   destruct (anticipate _ _ _ _) as [[ci b]|]; [|apply agree_refl].
-  intros s. cbn. left. eexists [], [], s, _. split; [reflexivity|left; reflexivity].
+  intros s. cbn. left. eexists [], [], s, _. split; reflexivity.
 Qed.
 
 Lemma agree_assert_done i : agree (assert_done true i) (assert_done false i).
@@ -72,7 +82,7 @@ Proof.
   destruct (_ =? _); [apply agree_refl|].
   intros s. cbn [fail]. left. unfold bind at 1. unfold emit.
   match goal with |- context [bind ?m ?f s] => destruct (bind m f s) as [[trc sc_] oc] end.
-  eexists [], trc, sc_, _. split; [|left; reflexivity].
+  eexists [], trc, sc_, _. split; [|reflexivity].
   destruct oc; reflexivity.
 Qed.
 
@@ -99,7 +109,7 @@ Proof.
     + rewrite E.
       destruct e as [p0 tn v src|c v b|c v val b|c|cc|rs cc|mp me mf]; try (right; reflexivity).
       cbn [orb]. destruct (negb (existsb (Nat.eqb (si_id c)) ids)); [right; reflexivity|].
-      left. destruct (h2 s1) as [[tr3 s3] o3]. exists [], tr3, s3, o3. split; [reflexivity|left; reflexivity].
+      left. destruct (h2 s1) as [[tr3 s3] o3]. exists [], tr3, s3, o3. split; reflexivity.
   - rewrite Hm. reflexivity.
   - rewrite Hm. reflexivity.
   - rewrite Hm. reflexivity.
@@ -113,7 +123,7 @@ Proof.
   - apply agree_set_constraint.
   - apply agree_assert_done.
   - apply agree_catch; assumption.
-  - intros s. cbn. left. eexists [], [], s, _. split; [reflexivity|left; reflexivity].
+  - intros s. cbn. left. eexists [], [], s, _. split; reflexivity.
 Qed.
 
 (** every decoder function, all tables, all states: strict and warn agree up to the first problem *)
@@ -160,7 +170,7 @@ Qed.
 Lemma emitted_after_problem is_stream len e pre rest nrd :
   offending e pre -> exists rest', emitted is_stream len (pre ++ Wn e :: rest) nrd = pre ++ Wn e :: rest'.
 Proof.
-  intros [->|(pa & tn & v & src & -> & ->)]; cbn [app emitted].
+  intros O. apply offending_cases in O. destruct O as [->|(pa & tn & v & src & -> & ->)]; cbn [app emitted].
   - eexists. reflexivity.
   - unfold is_root_event. cbn [evalue]. rewrite andb_false_r, andb_false_r. eexists. reflexivity.
 Qed.
